@@ -119,6 +119,16 @@ def gen_scenario(rng, max_procs=4, max_steps=3, p_quiet=0.25, allow_empty=True, 
            'unit': unit, 'prec': prec, 'calls': calls, 'emit_ticks': emit_ticks, 't0': t0}
     if emit_flags and rng.random() < 0.5:
         scn['noemit'] = [v for v, _ in store if rng.random() < 0.35]
+        # the flags may also be set through the engine's `store_schema` argument: per variable, or for the whole
+        # branch (which then overrides what the processes declare)
+        via = rng.choice([None, None, 'leaf', 'branch_off', 'branch_on'])
+        if via == 'branch_off':
+            scn['noemit'] = [v for v, _ in store]
+        elif via == 'branch_on':
+            scn['declared_noemit'] = scn['noemit']
+            scn['noemit'] = []
+        if via:
+            scn['emit_via'] = via
     return scn
 
 
@@ -292,11 +302,18 @@ def build_engine(scn, ctx, parallel_ok=False, entry='parts'):
             return token_updater
         ctx.token_updaters[tok(name)] = make()
 
+    # what the processes themselves declare (`_emit` in their ports schema); `store_schema` may override it
+    if scn.get('emit_via') in ('leaf', 'branch_off'):
+        declared_noemit = []
+    elif scn.get('emit_via') == 'branch_on':
+        declared_noemit = scn.get('declared_noemit', [])
+    else:
+        declared_noemit = scn.get('noemit', [])
     processes = {}
     topology = {}
     for p in scn['procs']:
         name = p['pid'][0]
-        params = {'spec': p, 'ctx': ctx, 'vars': vars_, 'init': init, 'noemit': scn.get('noemit', [])}
+        params = {'spec': p, 'ctx': ctx, 'vars': vars_, 'init': init, 'noemit': declared_noemit}
         if parallel_ok and p.get('parallel'):
             params['_parallel'] = True
             params['ctx'] = None
@@ -308,7 +325,7 @@ def build_engine(scn, ctx, parallel_ok=False, entry='parts'):
     flow = {}
     for p, sd in zip(scn['steps'], scn['stepDeps']):
         name = p['pid'][0]
-        params = {'spec': p, 'ctx': ctx, 'vars': vars_, 'init': init, 'noemit': scn.get('noemit', [])}
+        params = {'spec': p, 'ctx': ctx, 'vars': vars_, 'init': init, 'noemit': declared_noemit}
         if parallel_ok and p.get('parallel'):
             params['_parallel'] = True
             params['ctx'] = None
@@ -319,7 +336,14 @@ def build_engine(scn, ctx, parallel_ok=False, entry='parts'):
         if sd['deps'] is not None:
             flow[name] = [tuple(d) for d in sd['deps']]
     emit_step, _, _ = emit_params(scn)
-    kwargs = dict(emitter={'type': 'verif_spy'}, emit_step=emit_step,
+    store_schema = None
+    if scn.get('emit_via') == 'leaf':
+        store_schema = {'vars': {v: {'_emit': False} for v in scn.get('noemit', [])}}
+    elif scn.get('emit_via') == 'branch_off':
+        store_schema = {'vars': {'_emit': False}}
+    elif scn.get('emit_via') == 'branch_on':
+        store_schema = {'vars': {'_emit': True}}
+    kwargs = dict(emitter={'type': 'verif_spy'}, emit_step=emit_step, store_schema=store_schema,
                   global_time_precision=scn['prec'], display_info=False, progress_bar=False,
                   initial_global_time=start_time(scn))
     eng = Engine(processes=processes, steps=steps, flow=flow, topology=topology,
